@@ -3,8 +3,15 @@
 Decides: the merge-parent protocol holds for every Partition class (R1); store() frame rule (R2 =
 C02.R6); parent-then-own overlay order into one index (R3); sibling get/list_keys agreement (R4);
 index encode/decode table agreement (R5).  Per-key value equality is not decided.
+
+The clauses are decided on paths (partition_model.walk: branch literals with locals expanded, disjunctions
+split into cases) and on expanded expressions, not on the spelling of a particular `if`: what a statement
+is guarded by is read off the literals of the paths that reach it, what an accessor returns is evaluated
+along each path as a set of key sources (own map / parent listing), an index entry is read field by field
+whichever way it is constructed.
 """
 import ast
+import re
 
 from .. import astutil as A
 from ..fa import FA
@@ -12,22 +19,34 @@ from . import partition_model as PM
 from .c02 import check_frame_rule
 from .cache_model import self_attr
 
+PARENT_ATTR = "_merge_parent"
 
-def _roles(fa):
-    """Names of store()'s locals by role (so that the rules do not depend on how they are spelled)."""
-    r = {}
+
+def _names(t):
+    return [x.id for x in ast.walk(t) if isinstance(x, ast.Name)]
+
+
+def _for_nodes(fa):
+    seen, out = set(), []
+    live = fa.cfg.reachable_nodes()
+    for n in fa.cfg.nodes:
+        if n.kind == "for" and n.id in live and id(n.ast) not in seen:
+            seen.add(id(n.ast))
+            out.append(n)
+    return out
+
+
+def _roles(ck, fa):
+    """store()'s locals and loops by role (so that the rules do not depend on how they are spelled)."""
+    r = {"fields": PM.entry_type_fields(ck)}
+    ck.need(r["fields"], "storage_base.%s: field list not found" % PM.ENTRY_TYPE)
     ser = fa.calls("_serialize_index")
     r["INDEX"] = ser[0].args[0].id if ser and ser[0].args and isinstance(ser[0].args[0], ast.Name) else "index"
-    mp = [s_ for s_ in fa.stmts(ast.Assign) if A.norm(s_.value) == "obj._merge_parent" and isinstance(s_.targets[0], ast.Name)]
+    mp = [s_ for s_ in fa.stmts(ast.Assign) if A.norm(s_.value) == "obj." + PARENT_ATTR and isinstance(s_.targets[0], ast.Name)]
     r["MP"] = mp[0].targets[0].id if mp else "merge_parent"
     r["ploops"], r["oloops"] = [], []
-    for n in fa.cfg.nodes:
-        if n.kind != "for":
-            continue
-        flags = set()
-        for c in A.calls_in(n.ast):
-            if A.call_attr(c) == "_ResultTypeAndContentKey" and A.kwarg(c, "from_parent") is not None:
-                flags.add(A.norm(A.kwarg(c, "from_parent")))
+    for n in _for_nodes(fa):
+        flags = {A.norm(ef.get("from_parent")) for (_c, ef) in PM.entries_in(n.ast, r["fields"])}
         if flags == {"True"}:
             r["ploops"].append(n)
         elif flags == {"False"}:
@@ -41,8 +60,13 @@ def _roles(fa):
             r["PIDX"] = A.call_recv(it).id
         if isinstance(pl.target, ast.Tuple) and len(pl.target.elts) == 2:
             r["PK"], r["PV"] = A.norm(pl.target.elts[0]), A.norm(pl.target.elts[1])
-    ol = r["oloops"][0].ast if len(r["oloops"]) == 1 else None
-    r["KEYS"] = ol.iter.id if ol is not None and isinstance(ol.iter, ast.Name) else None
+        elif isinstance(pl.target, ast.Name):
+            # `for k in parent_index:` / `.keys()`: the entry is parent_index[k]
+            if isinstance(it, ast.Call) and A.call_attr(it) == "keys" and not it.args:
+                it = A.call_recv(it)
+            if isinstance(it, ast.Name):
+                r["PIDX"] = it.id
+                r["PK"], r["PV"] = pl.target.id, "%s[%s]" % (it.id, pl.target.id)
     r["PDS"] = None
     if pl is not None:
         for c in A.calls_in(pl):
@@ -51,25 +75,163 @@ def _roles(fa):
     return r
 
 
+def _pol(lits, *texts):
+    """Polarity with which a path states one of `texts` (None: not stated)."""
+    for l in reversed(lits):
+        if l.live and l.text in texts:
+            return l.pos
+    return None
+
+
+def _truthy(lits, subject):
+    """Does the path state that `subject` is there (truthy / not None)?  True / False / None."""
+    v = _pol(lits, subject)
+    if v is not None:
+        return v
+    v = _pol(lits, subject + " is None")
+    return None if v is None else not v
+
+
+def _there(lits, name):
+    """Like _truthy for a local `name`, read off the atoms as written (a local with one definition is expanded
+    in the literal's text)."""
+    for l in reversed(lits):
+        a = l.atom
+        if not l.live:
+            continue
+        if isinstance(a, ast.Call) and isinstance(a.func, ast.Name) and a.func.id == "bool" and len(a.args) == 1 and not a.keywords:
+            a = a.args[0]
+        if isinstance(a, ast.Name) and a.id == name:
+            return l.apos
+        if isinstance(a, ast.Compare) and len(a.ops) == 1 and isinstance(a.left, ast.Name) and a.left.id == name and A.is_none(a.comparators[0]):
+            if isinstance(a.ops[0], ast.Is):
+                return not l.apos
+            if isinstance(a.ops[0], ast.IsNot):
+                return l.apos
+    return None
+
+
+def _index_stores(fa, loop_ast, INDEX):
+    return [s for s in A.walk_local(loop_ast) if isinstance(s, ast.Assign) and len(s.targets) == 1 and isinstance(s.targets[0], ast.Subscript)
+            and A.norm(s.targets[0].value) == INDEX]
+
+
+def _entry_at(fa, value, at, fields):
+    """{field: normalised expanded text} of the index entry that `value` denotes at CFG node `at`."""
+    e = fa.expand(value, at)
+    ef = PM.entry_fields(e, fields)
+    if ef is None:
+        return None
+    return {f: A.norm(v) for f, v in ef.items()}
+
+
+def _on_trail(fa, atom, at, trail):
+    """`atom` (tested at node `at`) with every local replaced by the value the path gave it last before the
+    test — the path-sensitive counterpart of FA.expand for locals that have several definitions."""
+    import copy
+    upto = len(trail) - 1 - list(reversed(trail)).index(at) if at in trail else len(trail)
+    last = {}
+    for i in trail[:upto]:
+        nd = fa.cfg.node(i)
+        if nd.kind == "stmt" and isinstance(nd.ast, (ast.Assign, ast.AnnAssign)):
+            for (t, v) in PM._flat_targets(nd.ast):
+                if isinstance(t, ast.Name):
+                    last[t.id] = (v, i)
+        elif nd.kind in ("for", "with") or (nd.kind == "stmt" and isinstance(nd.ast, ast.AugAssign)):
+            for nm in _names(nd.ast.target if nd.kind != "with" else ast.Tuple(elts=[i_.optional_vars for i_ in nd.ast.items if i_.optional_vars is not None], ctx=ast.Store())):
+                last[nm] = (None, i)
+
+    class T(ast.NodeTransformer):
+        def visit_Name(self, n):
+            if isinstance(n.ctx, ast.Load) and n.id in last and last[n.id][0] is not None:
+                return fa.expand(last[n.id][0], last[n.id][1])
+            return n
+
+    return T().visit(copy.deepcopy(atom))
+
+
+def _facts(fa, lits, subject, trail=()):
+    """(is `subject` the stored form?, attributes it is known to have) as stated by the live literals of a path;
+    a literal about a local is read through the local's value (`idx = getattr(p, 'a', None)` ... `idx is None`)."""
+    inst, has = None, set()
+    for l in lits:
+        if not l.live:
+            continue
+        d = PM.duck_atom(l.atom, subject)
+        if d is None:
+            try:
+                d = PM.duck_atom(PM._strip_casts(fa.expand(l.atom, l.at)), subject)
+                if d is None and trail:
+                    d = PM.duck_atom(PM._strip_casts(_on_trail(fa, l.atom, l.at, trail)), subject)
+            except Exception:  # noqa
+                d = None
+        if d and d[0] == "isinstance" and "PicklePartition" in d[1]:
+            inst = (d[2] == l.apos)
+        if d and d[0] == "has" and d[2] == l.apos:
+            has.add(d[1])
+    return inst, has
+
+
+def _parent_reads(fa, MP, use=None):
+    """Attribute reads off the merge parent (or a cast / alias of it) in store(), by the branch they sit in:
+    -> (stored-form reads, duck-typed reads, attributes a duck-typed parent is known to have where it is used)
+    where the branch is read off the literals of the paths reaching the read, and the place of use is the CFG
+    node `use` (the head of the loop over the parent's entries; without it, the reads themselves)."""
+    stored, duck, tested = set(), set(), None
+    for x in A.walk_body(fa.node):
+        attr = None
+        if isinstance(x, ast.Attribute) and isinstance(x.ctx, ast.Load) and isinstance(x.value, ast.Name):
+            subj, attr = x.value, x.attr
+        elif isinstance(x, ast.Call) and isinstance(x.func, ast.Name) and x.func.id == "getattr" and len(x.args) in (2, 3) and isinstance(x.args[0], ast.Name) \
+                and A.const_str(x.args[1]):
+            subj, attr = x.args[0], A.const_str(x.args[1])
+        if attr is None:
+            continue
+        ids = fa.nodes(x)
+        if not ids:
+            continue
+        if isinstance(x, ast.Call) and fa.cfg.node(ids[0]).kind == "test":
+            continue  # a test, not a read
+        if subj.id != MP and fa.xnorm(subj, ids[0]) != MP:
+            continue
+        paths = PM.walk(fa, ids)
+        if not paths:
+            continue
+        facts = [_facts(fa, lits, MP, _tr) for (_t, lits, _tr) in paths]
+        if all(i is True for (i, _h) in facts):
+            stored.add(attr)
+            continue
+        duck.add(attr)
+        if use is None:
+            for (_i, h) in facts:
+                tested = h if tested is None else (tested & h)
+    if use is not None:
+        for (_t, lits, _tr) in PM.walk(fa, [use]):
+            (i, h) = _facts(fa, lits, MP, _tr)
+            if i is False:
+                tested = h if tested is None else (tested & h)
+    return stored, duck, (tested or set())
+
+
 def check_protocol(ck, R):
     ck.rule(R, "merge-parent protocol: for every concrete Partition class other than the stored form, the 'remember "
                "where it was written' test in store() succeeds on its declared attributes, the 'usable as parent' test "
                "can succeed, and the attributes written are the ones later read from a parent", 5)
     fa = FA(ck, PM.STORE)
-    ro = _roles(fa)
+    ro = _roles(ck, fa)
     MP, INDEX = ro["MP"], ro["INDEX"]
     writes = PM.store_writes_on_obj(fa)
-    remember = [(a, s, g) for (a, s, g) in writes if g is not None and "hasattr(obj" in A.norm(g.test)]
-    # the parent branch (elif) that reads <merge parent>.<attrs>
+    remember = [(a, s, g) for (a, s, g) in writes if g is not None and PM.duck_attrs(g.test, "obj")]
+    # the reads off a duck-typed parent, and what they are guarded by
+    stored_reads, duck_reads, tested = _parent_reads(fa, MP, ro["ploops"][0].id if len(ro["ploops"]) == 1 else None)
     parent_ifs = [i for i in fa.stmts(ast.If) if ("hasattr(%s" % MP) in A.norm(i.test) or ("getattr(%s" % MP) in A.norm(i.test)]
-    ok_shape = bool(remember) and len(parent_ifs) == 1
+    ok_shape = bool(remember) and bool(duck_reads) and bool(tested)
     ck.ob(R, fa.key(None, "merge-parent-protocol"), ok_shape, "store() has a remember-branch and a duck-typed parent branch" if ok_shape else
           "store() no longer has both the remember-output-keys branch and the duck-typed parent branch", fa.where())
     if not ok_shape:
         return
-    pif = parent_ifs[0]
-    parent_reads = sorted({n.attr for n in A.walk_local(ast.Module(body=pif.body, type_ignores=[])) if isinstance(n, ast.Attribute)
-                           and isinstance(n.value, ast.Name) and n.value.id == MP})
+    pif = parent_ifs[0] if parent_ifs else None
+    parent_reads = sorted(duck_reads)
     written = sorted({a for (a, s, g) in remember})
     okw = set(parent_reads) <= set(written)
     ck.ob(R, fa.key(pif, "written-is-read"), okw, "a parent is read through %s, which store() records on every serialised partition" % parent_reads if okw else
@@ -79,19 +241,19 @@ def check_protocol(ck, R):
     # middle element is still the in-memory object
     ser = [c for c in fa.calls("_serialize_index")]
     rec = [(a, s_) for (a, s_, g) in remember if a in parent_reads and "keys" in a or a == "_output_keys"]
+    merged = A.norm(ser[0].args[0]) if ser and ser[0].args else None
     if ser and rec:
-        merged = A.norm(ser[0].args[0]) if ser[0].args else None
         for (a, s_) in rec:
-            okm = A.norm(s_.value) == merged
+            val = PM.write_value(s_, a)
+            okm = val is not None and A.norm(val) == merged
             ck.ob(R, fa.key(s_, "remembers-merged-index"), okm,
                   "obj.%s records the merged index that is serialised" % a if okm else
                   "obj.%s records `%s` (own keys only) while `%s` is what is serialised: a child of this still-in-memory partition inherits "
-                  "only its own keys, the grandparent's keys are silently dropped from the stored child" % (a, A.norm(s_.value), merged), fa.where(s_))
+                  "only its own keys, the grandparent's keys are silently dropped from the stored child" % (a, A.norm(val) if val is not None else A.short(s_, 60), merged), fa.where(s_))
     # ... and it is recorded once it is COMPLETE: recording the (still empty) dict first and filling it
     # afterwards leaves a partition that claims to be serialised with a partial index when a write fails
     # half-way (or while another thread stores a child of it): the child is stored without the missing keys
     if ser and rec:
-        merged = A.norm(ser[0].args[0]) if ser[0].args else None
         for (a, s_) in rec:
             later = []
             for i in fa.nodes(s_):
@@ -126,10 +288,11 @@ def check_protocol(ck, R):
               "%s passes the remember test: its output location is recorded when it is stored" % cls.name if v1 is True else
               "%s does not satisfy `%s` (declares %s): after being stored it cannot serve as a merge parent" % (cls.name, A.short(g_rem.test, 80), sorted(a for a in attrs if a.startswith("_"))),
               fa.where(g_rem))
-        v2 = PM.eval_duck_test(pif.test, attrs, False, MP)
-        ck.ob(R, "%s::%s::usable-as-parent" % (fa.qual, cls.name), v2 is not False,
-              "%s can satisfy the parent test once stored" % cls.name if v2 is not False else
-              "%s can never satisfy `%s`: a child partition with such a parent is not memoized" % (cls.name, A.short(pif.test, 80)), fa.where(pif))
+        missing = sorted(t for t in tested if t not in attrs)
+        ck.ob(R, "%s::%s::usable-as-parent" % (fa.qual, cls.name), not missing,
+              "%s can satisfy the parent test once stored" % cls.name if not missing else
+              "%s can never satisfy the parent test (it requires %s, %s is not declared): a child partition with such a parent is not memoized"
+              % (cls.name, sorted(tested), missing), fa.where(pif))
         # initial values must be None so that 'never serialised' is detectable
         init = cls.methods.get("__init__")
         if init is not None:
@@ -141,25 +304,29 @@ def check_protocol(ck, R):
     pp = ck.repo.cls(PM.PICKLE_PARTITION)
     pattrs = PM.declared_attrs(ck, pp)
     iso = [i for i in fa.stmts(ast.If) if ("isinstance(%s" % MP) in A.norm(i.test)]
-    if iso:
-        aliases = {MP} | {s_.targets[0].id for s_ in A.walk_local(ast.Module(body=iso[0].body, type_ignores=[])) if isinstance(s_, ast.Assign)
-                          and isinstance(s_.targets[0], ast.Name) and fa.xnorm(s_.value, fa.nodes(s_)[0]) in (MP, "obj._merge_parent")}
-        reads = sorted({n.attr for n in A.walk_local(ast.Module(body=iso[0].body, type_ignores=[])) if isinstance(n, ast.Attribute)
-                        and isinstance(n.value, ast.Name) and n.value.id in aliases})
+    if iso or stored_reads:
+        reads = sorted(stored_reads)
         okp = set(reads) <= pattrs
-        ck.ob(R, fa.key(iso[0], "stored-form-parent"), okp, "a partition read back from the store serves as parent through %s" % reads if okp else
-              "the stored-form parent branch reads %s, not all declared by PicklePartition" % reads, fa.where(iso[0]))
+        ck.ob(R, fa.key(iso[0] if iso else None, "stored-form-parent"), okp, "a partition read back from the store serves as parent through %s" % reads if okp else
+              "the stored-form parent branch reads %s, not all declared by PicklePartition" % reads, fa.where(iso[0] if iso else None))
     # the stored form re-stored (a function returning the partition another function returned):
     # list_keys(_include_merge_parent=False) drops its inherited entries, so they must be carried
     # over from its own index
     carried = False
     for s_ in fa.stmts(ast.Assign):
         if any(isinstance(t, ast.Name) and t.id == MP for t in s_.targets) and A.norm(s_.value) == "obj":
-            g = fa.enclosing(s_, ast.If)
-            if g is not None and "isinstance(obj" in A.norm(g.test) and "PicklePartition" in A.norm(g.test):
+            paths = PM.walk(fa, fa.nodes(s_))
+
+            def stored_form(lits):
+                for l in lits:
+                    d = PM.duck_atom(l.atom, "obj") if l.live else None
+                    if d and d[0] == "isinstance" and "PicklePartition" in d[1] and d[2] == l.apos:
+                        return True
+                return False
+            if paths and all(stored_form(lits) for (_t, lits, _tr) in paths):
                 carried = True
-    for lp_ in [n.ast for n in fa.cfg.nodes if n.kind == "for"]:
-        if "obj._index" in A.norm(lp_.iter) and any(isinstance(x, ast.Assign) and isinstance(x.targets[0], ast.Subscript) and A.norm(x.targets[0].value) == INDEX for x in A.walk_local(lp_)):
+    for lp_ in [n.ast for n in _for_nodes(fa)]:
+        if "obj._index" in A.norm(lp_.iter) and _index_stores(fa, lp_, INDEX):
             carried = True
     ck.ob(R, fa.key(None, "stored-form-restored"), carried, "a stored-form partition that is stored again carries its inherited entries over" if carried else
           "when the object being stored is itself the stored form (a function returning a partition it got from another memento function), only "
@@ -170,14 +337,29 @@ def check_protocol(ck, R):
           "an unusable merge parent is not signalled as an I/O error", fa.where())
 
 
+def _remembered_pair(fa, INDEX):
+    """(attribute that records the merged index, attribute that records the data source it was written to),
+    read off store()'s own writes on the stored object."""
+    a_idx = a_ds = None
+    for (a, s, _g) in PM.store_writes_on_obj(fa):
+        v = PM.write_value(s, a)
+        if v is None:
+            continue
+        if A.norm(v) == INDEX:
+            a_idx = a
+        elif A.norm(v) == "data_source":
+            a_ds = a
+    return (a_idx or "_output_keys", a_ds or "_parent_data_source")
+
+
 def check_overlay(ck, R):
     ck.rule(R, "overlay order: the parent's index entries are copied (marked from_parent) before the partition's own "
                "keys are layered on top, own keys come from list_keys(_include_merge_parent=False), and both go into the "
                "one index that is serialised", 6)
     fa = FA(ck, PM.STORE)
     cfg = fa.cfg
-    ro = _roles(fa)
-    MP, INDEX, KEYS, PV, PDS = ro["MP"], ro["INDEX"], ro["KEYS"], ro["PV"], ro["PDS"]
+    ro = _roles(ck, fa)
+    MP, INDEX, PV, PDS, PIDX, fields = ro["MP"], ro["INDEX"], ro["PV"], ro["PDS"], ro["PIDX"], ro["fields"]
     ploops, oloops = ro["ploops"], ro["oloops"]
     ok = len(ploops) == 1 and len(oloops) == 1
     ck.ob(R, fa.key(None, "two-loops"), ok, "parent loop and own-keys loop found" if ok else
@@ -185,68 +367,87 @@ def check_overlay(ck, R):
     if not ok:
         return
     pl, ol = ploops[0], oloops[0]
-    mp = [n.id for n in cfg.nodes if n.kind == "test" and A.norm(n.ast) in (MP, MP + " is not None")]
-    # with a parent, the parent loop is passed before the own loop
-    okp = bool(mp)
-    if okp:
-        starts = [d for t in mp for (d, l) in cfg.succ[t] if l == "T"]
-        live = cfg.reach(starts, removed=[pl.id])
-        okp = ol.id not in live
+    # with a parent, the parent loop is passed before the own loop: a path that reaches the own loop without
+    # passing the parent loop is one on which there is no parent
+    to_own = PM.walk(fa, [ol.id])
+    okp = any(pl.id in tr for (_t, _l, tr) in to_own) and all(pl.id in tr or _there(lits, MP) is False for (_t, lits, tr) in to_own)
     # and never after
     after = cfg.reach([ol.id], include_start=False)
     okp = okp and pl.id not in after
     ck.ob(R, fa.key(pl.ast, "parent-before-own"), okp, "parent entries are copied before own keys are layered on top (own keys win)" if okp else
           "own keys are not layered after the parent's entries: a parent entry can overwrite the partition's own key", fa.where(pl.ast))
-    # parent entries: same result_type/content_key, from_parent=True, into `index`
-    pent = [c for c in A.calls_in(pl.ast) if A.call_attr(c) == "_ResultTypeAndContentKey"]
-    okpe = len(pent) == 1 and A.norm(A.kwarg(pent[0], "from_parent")) == "True" and A.norm(A.kwarg(pent[0], "result_type")) == "%s.result_type" % PV \
-        and A.norm(A.kwarg(pent[0], "content_key")) == "%s.content_key" % PV
-    pst = [s for s in A.walk_local(pl.ast) if isinstance(s, ast.Assign) and isinstance(s.targets[0], ast.Subscript) and A.norm(s.targets[0].value) == INDEX]
-    okpe = okpe and len(pst) == 1 and A.norm(pst[0].targets[0].slice) == A.norm(pl.ast.target.elts[0])
+    # parent entries: same result_type/content_key, from_parent=True, into `index`, under their own key
+    pst = _index_stores(fa, pl.ast, INDEX)
+    okpe = len(pst) == 1 and len(PM.entries_in(pl.ast, fields)) == 1 and PV is not None
+    if okpe:
+        ent = _entry_at(fa, pst[0].value, fa.nodes(pst[0])[0], fields)
+        okpe = ent is not None and ent.get("from_parent") == "True" and ent.get("result_type") == "%s.result_type" % PV \
+            and ent.get("content_key") == "%s.content_key" % PV and A.norm(pst[0].targets[0].slice) == ro["PK"]
     ck.ob(R, fa.key(pl.ast, "parent-entries"), okpe, "parent entries keep their type and content key and are marked from_parent" if okpe else
           "parent entries are not copied as (result_type, content_key, from_parent=True) under their own key", fa.where(pl.ast))
     # every parent entry is copied: each iteration of the parent loop reaches the index store
     if pst:
         starts = [d for (d, l) in cfg.succ[pl.id] if l == "T"]
-        live = cfg.reach(starts, removed=fa.nodes(pst[0]))
-        okall = pl.id not in live
+        live = cfg.reach(starts, removed=fa.nodes(pst[0]), edge_ok=lambda a, b, l: l != "exc")
+        # ... neither starting the next iteration nor leaving the loop (break / return) before it
+        okall = pl.id not in live and cfg.exit not in live and all(
+            cfg.node(i).ast is None or fa.inside(cfg.node(i).ast, pl.ast) for i in live)
         ck.ob(R, fa.key(pl.ast, "every-parent-entry"), okall, "every parent entry is copied into the merged index" if okall else
               "an iteration of the parent loop can skip `index[k] = ...` (continue / early exit): such parent-only keys disappear from the stored child", fa.where(pl.ast))
     refs = [c for c in A.calls_in(pl.ast) if A.call_attr(c) == "reference"]
-    okr = bool(refs) and PDS is not None and all([A.norm(a) for a in c.args] == [PDS, "%s.content_key" % PV, "%s.content_key" % PV] for c in refs)
+    okr = bool(refs) and PDS is not None and PIDX is not None and all(
+        len(c.args) == 3 and A.norm(c.args[0]) == PDS and [fa.xnorm(a, fa.nodes(c)[0]) for a in c.args[1:]] == ["%s.content_key" % PV] * 2 for c in refs)
     if okr:
-        # the data source named is the parent's own (read off the parent object in the same branch as its index)
-        pds_defs = [d for i in fa.nodes(refs[0]) for d in fa.df.reaching(i, PDS)]
-        okr = bool(pds_defs) and all(d.value is not None and isinstance(d.value, ast.Attribute) and d.value.attr in ("_data_source", "_parent_data_source") for d in pds_defs)
+        # the data source named is the parent's own: on every path into the loop body, the index iterated and the
+        # data source referenced were read off the parent object as a pair (stored form: its index and its data
+        # source; a serialised in-memory / on-disk object: what store() recorded on it)
+        pairs = {("_index", "_data_source"), _remembered_pair(fa, INDEX)}
+        for (_t, _lits, tr) in PM.walk(fa, fa.nodes(refs[0])[:1]):
+            di = dd = None
+            for i in tr:
+                nd = cfg.node(i)
+                if nd.kind == "stmt" and isinstance(nd.ast, (ast.Assign, ast.AnnAssign)):
+                    for (t, v) in PM._flat_targets(nd.ast):
+                        if isinstance(t, ast.Name) and t.id == PIDX:
+                            di = (v, i)
+                        if isinstance(t, ast.Name) and t.id == PDS:
+                            dd = (v, i)
+            if di is not None and di[0] is not None and A.norm(di[0]) in ("{}", "dict()"):
+                continue  # an empty default: the body is not entered on this path
+            xi = fa.xnorm(di[0], di[1]) if di and di[0] is not None else ""
+            xd = fa.xnorm(dd[0], dd[1]) if dd and dd[0] is not None else ""
+            ga = re.compile(r"getattr\(%s, '(\w+)'(, None)?\)" % re.escape(MP))
+            xi, xd = ga.sub(MP + r".\1", xi), ga.sub(MP + r".\1", xd)
+            mi, md = re.fullmatch(re.escape(MP) + r"\.(\w+)", xi), re.fullmatch(re.escape(MP) + r"\.(\w+)", xd)
+            if not (mi and md and (mi.group(1), md.group(1)) in pairs):
+                okr = False
     ck.ob(R, fa.key(pl.ast, "parent-referenced"), okr, "inherited objects are referenced in the target data source" if okr else
           "inherited objects are not referenced from the parent's data source", fa.where(pl.ast))
     # own keys
-    kd = [s for s in fa.stmts(ast.Assign) if KEYS is not None and any(isinstance(t, ast.Name) and t.id == KEYS for t in s.targets)]
-    okk = len(kd) == 1 and isinstance(kd[0].value, ast.Call) and A.call_attr(kd[0].value) == "list_keys" and A.norm(A.call_recv(kd[0].value)) == "obj" \
-        and A.norm(A.kwarg(kd[0].value, "_include_merge_parent")) == "False"
+    it = ol.ast.iter
+    while isinstance(it, ast.Call) and isinstance(it.func, ast.Name) and it.func.id in ("list", "sorted", "tuple") and len(it.args) == 1 and not it.keywords:
+        it = it.args[0]
+    okk = fa.xnorm(it, ol.id) in ("obj.list_keys(_include_merge_parent=False)", "obj.list_keys(False)")
     ck.ob(R, fa.key(None, "own-keys-only"), okk, "only the partition's own keys are re-stored" if okk else
           "own keys are not taken from obj.list_keys(_include_merge_parent=False): parent data is re-stored or own keys are missed", fa.where())
-    oent = [c for c in A.calls_in(ol.ast) if A.call_attr(c) == "_ResultTypeAndContentKey"]
     LK = A.norm(ol.ast.target)
-    gets = [s for s in A.walk_local(ol.ast) if isinstance(s, ast.Assign) and isinstance(s.value, ast.Call) and A.call_attr(s.value) == "get" and A.norm(A.call_recv(s.value)) == "obj"]
-    VAL = A.norm(gets[0].targets[0]) if len(gets) == 1 else None
-    okoe = len(oent) == 1 and VAL is not None and A.norm(A.kwarg(oent[0], "from_parent")) == "False"
+    GET = "obj.get(%s)" % LK
+    TYP = "ResultType.from_object(%s)" % GET
+    ost = _index_stores(fa, ol.ast, INDEX)
+    okoe = len(ost) == 1 and len(PM.entries_in(ol.ast, fields)) == 1
     if okoe:
-        at = fa.nodes(oent[0])[0]
-        okoe = fa.xnorm(A.kwarg(oent[0], "result_type"), at) == "ResultType.from_object(obj.get(%s))" % LK \
-            and fa.xnorm(A.kwarg(oent[0], "content_key"), at).startswith("self._codec.store(ResultType.from_object(obj.get(%s)), data_source, " % LK)
-    ost = [s for s in A.walk_local(ol.ast) if isinstance(s, ast.Assign) and isinstance(s.targets[0], ast.Subscript) and A.norm(s.targets[0].value) == INDEX]
-    okoe = okoe and len(ost) == 1 and A.norm(ost[0].targets[0].slice) == LK \
-        and fa.xnorm(ost[0].value, fa.nodes(ost[0])[0]).startswith("_ResultTypeAndContentKey(")
+        ent = _entry_at(fa, ost[0].value, fa.nodes(ost[0])[0], fields)
+        okoe = ent is not None and ent.get("from_parent") == "False" and ent.get("result_type") == TYP \
+            and ent.get("content_key", "").startswith("self._codec.store(%s, data_source, " % TYP) and A.norm(ost[0].targets[0].slice) == LK
     ck.ob(R, fa.key(ol.ast, "own-entries"), okoe, "own entries are recorded under their key with from_parent=False" if okoe else
           "own entries are not recorded as (result_type, stored key, from_parent=False) under their own key", fa.where(ol.ast))
-    # value stored is the value classified
+    # value stored is the value classified: fetched once per key, classified, stored under that type
+    gets = [c for c in A.calls_in(ol.ast) if A.call_attr(c) == "get" and A.norm(A.call_recv(c)) == "obj"]
     st = [c for c in A.calls_in(ol.ast) if A.call_attr(c) == "store"]
-    okv = len(gets) == 1 and len(st) == 1 and len(st[0].args) >= 4 and [A.norm(a) for a in gets[0].value.args] == [LK]
+    okv = len(gets) == 1 and A.norm(gets[0]) == GET and len(st) == 1 and len(st[0].args) >= 4
     if okv:
         at = fa.nodes(st[0])[0]
-        okv = fa.xnorm(st[0].args[0], at) == "ResultType.from_object(obj.get(%s))" % LK and fa.xnorm(st[0].args[3], at) == "obj.get(%s)" % LK \
-            and A.norm(st[0].args[3]) == VAL
+        okv = fa.xnorm(st[0].args[0], at) == TYP and fa.xnorm(st[0].args[3], at) == GET
     ck.ob(R, fa.key(ol.ast, "value-per-key"), okv, "each key's value is fetched, classified and stored under its own type" if okv else
           "the per-key value is not (get(k) -> from_object -> codec.store) consistently", fa.where(ol.ast))
     # the same index is what is serialised, after both loops
@@ -257,43 +458,409 @@ def check_overlay(ck, R):
           "the serialised index is not the merged `index` built by both loops", fa.where())
 
 
+# ---- what an accessor returns, as a set of key sources ---------------------------------------------------
+
+class _Filt:
+    """A comprehension filter over an own map: the `if`s, the key variable, the value variable (or None)."""
+
+    def __init__(self, ifs, keyvar, valvar, field):
+        self.ifs, self.keyvar, self.valvar, self.field = ifs, keyvar, valvar, field
+
+    def __repr__(self):
+        return "if " + " and ".join(A.norm(i) for i in self.ifs)
+
+
+def _one(tok):
+    return (frozenset([tok]), False)
+
+
+def _kv(e, env):
+    """Abstract value of a key-collection expression: (frozenset of sources, sorted?).  Sources:
+    ('own', field, filter-or-None) the keys of self.<field>; ('parent',) the merge parent's full listing;
+    ('parent-partial',) a restricted listing of it; ('parentobj',) the merge parent itself; ('?', text)."""
+    if isinstance(e, ast.Name):
+        return env.get(e.id, _one(("?", e.id)))
+    if isinstance(e, ast.Attribute):
+        f = self_attr(e)
+        if f == PARENT_ATTR:
+            return _one(("parentobj",))
+        if f:
+            return _one(("own", f, None))
+        return _one(("?", A.norm(e)))
+    if isinstance(e, ast.Call):
+        name, recv = A.call_attr(e), A.call_recv(e)
+        if recv is not None and name == "keys" and not e.args and not e.keywords:
+            return (_kv(recv, env)[0], False)
+        if recv is not None and name == "list_keys":
+            if _kv(recv, env)[0] == frozenset([("parentobj",)]):
+                args = list(e.args) + [k.value for k in e.keywords]
+                full = not args or (len(args) == 1 and isinstance(args[0], ast.Constant) and args[0].value is True)
+                return _one(("parent",) if full else ("parent-partial",))
+            return _one(("?", A.norm(e)))
+        if isinstance(e.func, ast.Name) and e.func.id in ("set", "frozenset", "list", "tuple", "sorted", "iter"):
+            if not e.args:
+                return (frozenset(), e.func.id == "sorted")
+            if len(e.args) == 1:
+                (s, so) = _kv(e.args[0], env)
+                if e.func.id == "sorted":
+                    return (s, not e.keywords)
+                if e.func.id in ("list", "tuple", "iter") and not e.keywords:
+                    return (s, so)
+                return (s, False)
+        if recv is not None and name == "union" and not e.keywords:
+            s = _kv(recv, env)[0]
+            for a in e.args:
+                s = s | _kv(a, env)[0]
+            return (s, False)
+        if recv is not None and name == "copy" and not e.args and not e.keywords:
+            return (_kv(recv, env)[0], False)
+        if name == "chain" and not e.keywords and not any(isinstance(a, ast.Starred) for a in e.args):
+            s = frozenset()
+            for a in e.args:
+                s = s | _kv(a, env)[0]
+            return (s, False)
+        return _one(("?", A.norm(e)))
+    if isinstance(e, ast.BinOp) and isinstance(e.op, (ast.BitOr, ast.Add)):
+        return (_kv(e.left, env)[0] | _kv(e.right, env)[0], False)
+    if isinstance(e, (ast.Set, ast.List, ast.Tuple)):
+        s = frozenset()
+        for x in e.elts:
+            s = s | (_kv(x.value, env)[0] if isinstance(x, ast.Starred) else frozenset([("?", A.norm(x))]))
+        return (s, False)
+    if isinstance(e, (ast.ListComp, ast.SetComp, ast.GeneratorExp)) and len(e.generators) == 1 and not e.generators[0].is_async:
+        g = e.generators[0]
+        keyvar = valvar = None
+        if isinstance(g.iter, ast.Call) and A.call_attr(g.iter) == "items" and not g.iter.args and A.call_recv(g.iter) is not None \
+                and isinstance(g.target, ast.Tuple) and len(g.target.elts) == 2 and all(isinstance(x, ast.Name) for x in g.target.elts):
+            src = _kv(A.call_recv(g.iter), env)[0]
+            keyvar, valvar = g.target.elts[0].id, g.target.elts[1].id
+        elif isinstance(g.target, ast.Name):
+            src = _kv(g.iter, env)[0]
+            keyvar = g.target.id
+        else:
+            return _one(("?", A.norm(e)))
+        toks = list(src)
+        if isinstance(e.elt, ast.Name) and e.elt.id == keyvar and len(toks) == 1:
+            if not g.ifs:
+                return (src, False)
+            if toks[0][0] == "own" and toks[0][2] is None:
+                return _one(("own", toks[0][1], _Filt(g.ifs, keyvar, valvar, toks[0][1])))
+        return _one(("?", A.norm(e)))
+    return _one(("?", A.norm(e)))
+
+
+def _step(env, nd, value):
+    """One simple statement (its value given separately, conditional expressions already decided) on the
+    abstract key-collection environment."""
+    st = nd.ast
+    if nd.kind == "for":
+        for nm in _names(st.target):
+            env[nm] = _one(("?", nm))
+        return
+    if nd.kind == "test" and st is not None:
+        for x in A.walk_local(st):
+            if isinstance(x, ast.NamedExpr) and isinstance(x.target, ast.Name):
+                env[x.target.id] = _kv(x.value, env)
+        return
+    if nd.kind != "stmt":
+        return
+    if isinstance(st, (ast.Assign, ast.AnnAssign)):
+        new = {}
+        tgs = st.targets if isinstance(st, ast.Assign) else [st.target]
+        for t0 in tgs:
+            if isinstance(t0, (ast.Tuple, ast.List)):
+                vs = value.elts if isinstance(value, (ast.Tuple, ast.List)) and len(value.elts) == len(t0.elts) else [None] * len(t0.elts)
+                pairs = list(zip(t0.elts, vs))
+            else:
+                pairs = [(t0, value)]
+            for (t, v) in pairs:
+                if isinstance(t, ast.Name):
+                    new[t.id] = _kv(v, env) if v is not None else _one(("?", t.id))
+                elif isinstance(t, (ast.Tuple, ast.List, ast.Starred)):
+                    for nm in _names(t):
+                        new[nm] = _one(("?", nm))
+        env.update(new)
+    elif isinstance(st, ast.AugAssign) and isinstance(st.target, ast.Name):
+        cur = env.get(st.target.id, _one(("?", st.target.id)))[0]
+        if isinstance(st.op, (ast.BitOr, ast.Add)):
+            env[st.target.id] = (cur | _kv(value, env)[0], False)
+        else:
+            env[st.target.id] = (cur | frozenset([("?", A.norm(st))]), False)
+    elif isinstance(st, ast.Expr) and isinstance(value, ast.Call) and isinstance(value.func, ast.Attribute) \
+            and isinstance(value.func.value, ast.Name) and value.func.value.id in env:
+        nm, meth, c = value.func.value.id, value.func.attr, value
+        cur, so = env[nm]
+        if meth in ("update", "extend") and not c.keywords:
+            for a in c.args:
+                cur = cur | _kv(a, env)[0]
+            env[nm] = (cur, False)
+        elif meth == "sort" and not c.args and not c.keywords:
+            env[nm] = (cur, True)
+        else:
+            env[nm] = (cur | frozenset([("?", A.norm(st))]), False)
+
+
+def _run(fa, lits, trail):
+    """Execute the simple statements of a path on the abstract key-collection environment.  A conditional
+    expression in a statement splits the path: -> [(literals of the path and of the choices made, env)]."""
+    states = [(list(lits), {})]
+    for i in trail:
+        nd = fa.cfg.node(i)
+        value = getattr(nd.ast, "value", None) if nd.kind == "stmt" and isinstance(nd.ast, (ast.Assign, ast.AnnAssign, ast.AugAssign, ast.Expr)) else None
+        alts = PM.split_ifexp(fa, value, i) if value is not None else [([], None)]
+        nxt = []
+        for (ls, env) in states:
+            for (extra, val) in alts:
+                if extra and not PM.consistent(ls + extra):
+                    continue
+                e2 = dict(env) if len(alts) > 1 else env
+                _step(e2, nd, val)
+                nxt.append((ls + extra, e2))
+        states = nxt
+    return states
+
+
+def _returned(fa, path):
+    """What the return at the end of `path` hands back, per way of deciding the conditional expressions on
+    the path: [(literals, key sources, sorted?)]"""
+    (t, lits, tr) = path
+    st = fa.cfg.node(t).ast
+    out = []
+    for (ls, env) in _run(fa, lits, tr):
+        if st.value is None:
+            out.append((ls, frozenset([("?", "None")]), False))
+            continue
+        for (extra, val) in PM.split_ifexp(fa, st.value, t):
+            if extra and not PM.consistent(ls + extra):
+                continue
+            (srcs, srt) = _kv(val, env)
+            out.append((ls + extra, srcs, srt))
+    return out
+
+
+def _on_path(fa, expr, trail, at):
+    """Expanded text of `expr` at the end of a path: a local with several definitions is resolved to the one
+    the path passed last."""
+    if isinstance(expr, ast.Name) and len(fa.df.reaching(at, expr.id)) > 1:
+        for i in reversed(trail):
+            nd = fa.cfg.node(i)
+            if nd.kind == "stmt" and isinstance(nd.ast, (ast.Assign, ast.AnnAssign)):
+                for (t, v) in PM._flat_targets(nd.ast):
+                    if isinstance(t, ast.Name) and t.id == expr.id:
+                        return fa.xnorm(v, i) if v is not None else expr.id
+    w = PM.walrus_bindings(fa, trail)
+    if w and any(isinstance(x, ast.Name) and x.id in w and not fa.df.reaching(at, x.id) for x in ast.walk(expr)):
+        import copy
+
+        class T(ast.NodeTransformer):
+            def visit_Name(self, n):
+                return copy.deepcopy(w[n.id]) if isinstance(n.ctx, ast.Load) and n.id in w and not fa.df.reaching(at, n.id) else n
+
+        return fa.xnorm(T().visit(copy.deepcopy(expr)), at)
+    return fa.xnorm(expr, at)
+
+
+def _param(ck, fa, idx, what):
+    args = fa.node.args.args
+    ck.need(len(args) > idx, "%s: parameter for %s not found" % (fa.qual, what))
+    return args[idx].arg
+
+
+def _exit_paths(fa):
+    """(paths to every return / raise, can the function fall off its end)"""
+    cfg = fa.cfg
+    live = cfg.reachable_nodes()
+    ends = [n.id for n in cfg.nodes if n.id in live and n.kind == "stmt" and isinstance(n.ast, (ast.Return, ast.Raise))]
+    falls = bool(PM.walk(fa, [cfg.exit], avoid=ends))
+    return PM.walk(fa, ends), falls
+
+
+def _show(srcs):
+    out = []
+    for t in sorted(srcs, key=repr):
+        out.append({"own": lambda: "self.%s keys%s" % (t[1], "" if t[2] is None else " " + repr(t[2])), "parent": lambda: "parent.list_keys()",
+                    "parent-partial": lambda: "a restricted parent listing", "parentobj": lambda: "the parent object"}.get(t[0], lambda: "`%s`" % t[-1])())
+    return out
+
+
 def _shape_get(ck, R, cls):
+    """get(key): the own value when the key is an own key, else what the merge parent answers when there is one,
+    else an error — decided per exit of the function on the literals of the paths that reach it."""
     m = cls.methods.get("get")
     ck.need(m is not None, "%s.get not found" % cls.qual)
     fa = FA(ck, m)
-    tests = [i for i in fa.stmts(ast.If) if isinstance(i.test, ast.Compare) and isinstance(i.test.ops[0], ast.NotIn) and A.norm(i.test.left) == "key"]
-    ok = len(tests) == 1
-    why = "no `key not in <own>` test"
-    if ok:
-        t = tests[0]
-        inner = [i for i in t.body if isinstance(i, ast.If) and A.norm(i.test) == "self._merge_parent"]
-        deleg = inner and any(isinstance(s, ast.Return) and A.norm(s.value) == "self._merge_parent.get(key)" for s in inner[0].body)
-        rais = any(isinstance(s, ast.Raise) for s in t.body)
-        own_ret = [r for r in fa.returns() if not fa.inside(r, t)]
-        ok = bool(deleg) and rais and bool(own_ret) and all("_merge_parent" not in A.norm(r.value) for r in own_ret)
-        why = "own key first, else parent, else error" if ok else "get() is not 'own first, else delegate to the merge parent, else ValueError'"
-    ck.ob(R, fa.key(None, "get-shape"), ok, why, fa.where())
+    K = _param(ck, fa, 1, "the key")
+    own_re = re.compile(r"^%s in self\.(\w+)(\.keys\(\))?$" % re.escape(K))
+    paths, falls = _exit_paths(fa)
+    why = []
+    if falls:
+        why.append("get() can end without returning or raising")
+    seen = set()
+    own_fields = set()
+    for (t, lits, _tr) in paths:
+        st = fa.cfg.node(t).ast
+        own = par = None
+        other = []
+        for l in lits:
+            mo = own_re.match(l.text)
+            if not l.live:
+                other.append("(stale) " + l.text)
+            elif mo and mo.group(1) != PARENT_ATTR:
+                own = l.pos
+                own_fields.add(mo.group(1))
+            elif l.text == "self." + PARENT_ATTR:
+                par = l.pos
+            elif l.text == "self.%s is None" % PARENT_ATTR:
+                par = not l.pos
+            else:
+                other.append(l.text)
+        if isinstance(st, ast.Raise):
+            kind, want = "raise", (False, False)
+        else:
+            v = _on_path(fa, st.value, _tr, t) if st.value is not None else "None"
+            if v == "self.%s.get(%s)" % (PARENT_ATTR, K):
+                kind, want = "delegate", (False, True)
+            elif PARENT_ATTR not in v:
+                kind, want = "own", (True, None)
+            else:
+                kind, want = "other", None
+        seen.add(kind)
+        if want is None or other or (own, par) != want:
+            why.append("`%s` is reached under %s" % (A.short(st, 50), sorted((l.text, l.pos) for l in lits)))
+    for k in ("own", "delegate", "raise"):
+        if k not in seen:
+            why.append({"own": "no exit returns the own value", "delegate": "no exit delegates to the merge parent", "raise": "no exit raises for an unknown key"}[k])
+    if len(own_fields) > 1:
+        why.append("own keys tested on several maps %s" % sorted(own_fields))
+    ok = not why
+    ck.ob(R, fa.key(None, "get-shape"), ok, "own key first, else parent, else error" if ok else
+          "get() is not 'own first, else delegate to the merge parent, else ValueError' (%s)" % "; ".join(why[:3]), fa.where())
 
 
 def _shape_list(ck, R, cls):
+    """list_keys(include): sorted(own keys | parent.list_keys()) when include is set and there is a parent,
+    sorted(own keys) otherwise — decided per return on the key sources of the returned value."""
     m = cls.methods.get("list_keys")
     ck.need(m is not None, "%s.list_keys not found" % cls.qual)
     fa = FA(ck, m)
-    tests = [i for i in fa.stmts(ast.If) if "_include_merge_parent" in A.norm(i.test) and "self._merge_parent" in A.norm(i.test)]
-    ok = len(tests) == 1
-    why = "list_keys() does not branch on `_include_merge_parent and self._merge_parent`"
-    if ok:
-        t = tests[0]
-        txt = " ".join(A.norm(s) for s in t.body)
-        union = "self._merge_parent.list_keys()" in txt and ("update(" in txt or "|" in txt or "union(" in txt)
-        rin = [r for r in fa.returns() if fa.inside(r, t)]
-        rout = [r for r in fa.returns() if not fa.inside(r, t)]
-        srt = all(isinstance(r.value, ast.Call) and A.call_attr(r.value) == "sorted" for r in rin + rout)
-        own_only = all("_merge_parent" not in A.norm(r.value) for r in rout)
-        ok = union and bool(rin) and bool(rout) and srt and own_only
-        why = "union of parent and own keys, sorted; own keys only otherwise" if ok else \
-            "list_keys() is not 'sorted union of parent and own keys, or sorted own keys'"
-    ck.ob(R, fa.key(None, "list-shape"), ok, why, fa.where())
+    INC = _param(ck, fa, 1, "_include_merge_parent")
+    paths, falls = _exit_paths(fa)
+    why = []
+    if falls:
+        why.append("can end without returning")
+    own_fields = set()
+    with_parent = without = False
+    for path in paths:
+        st = fa.cfg.node(path[0]).ast
+        if isinstance(st, ast.Raise):
+            why.append("raises `%s`" % A.short(st, 40))
+            continue
+        for (lits, srcs, srt) in _returned(fa, path):
+            inc, par = _pol(lits, INC), _truthy(lits, "self." + PARENT_ATTR)
+            own = {s for s in srcs if s[0] == "own" and s[2] is None}
+            own_fields |= {s[1] for s in own}
+            if inc is True and par is True:
+                with_parent = True
+                good = len(own) == 1 and srcs - own == {("parent",)}
+            elif inc is False or par is False:
+                without = True
+                good = len(own) == 1 and srcs == own
+            else:
+                good = False
+            if not good or not srt:
+                why.append("under %s it returns %s%s" % (sorted((l.text, l.pos) for l in lits), _show(srcs), "" if srt else ", not sorted"))
+    if not with_parent:
+        why.append("no return for `%s and self.%s`" % (INC, PARENT_ATTR))
+    if not without:
+        why.append("no return for the case without parent")
+    if len(own_fields) > 1:
+        why.append("own keys taken from several maps %s" % sorted(own_fields))
+    ok = not why
+    ck.ob(R, fa.key(None, "list-shape"), ok, "union of parent and own keys, sorted; own keys only otherwise" if ok else
+          "list_keys() is not 'sorted union of parent and own keys, or sorted own keys' (%s)" % "; ".join(why[:3]), fa.where())
+
+
+def _simplify(e, name, value):
+    """Partial evaluation of a boolean expression with `name` := value -> True / False / residual expression."""
+    if isinstance(e, ast.Constant):
+        return bool(e.value)
+    if isinstance(e, ast.Name) and e.id == name:
+        return value
+    if isinstance(e, ast.UnaryOp) and isinstance(e.op, ast.Not):
+        r = _simplify(e.operand, name, value)
+        return (not r) if isinstance(r, bool) else ast.UnaryOp(op=ast.Not(), operand=r)
+    if isinstance(e, ast.BoolOp):
+        absorbing = isinstance(e.op, ast.Or)
+        rest = []
+        for v in e.values:
+            r = _simplify(v, name, value)
+            if isinstance(r, bool):
+                if r == absorbing:
+                    # a residual operand evaluated before it cannot change the outcome (filters have no effects)
+                    return absorbing
+                continue
+            rest.append(r)
+        if not rest:
+            return not absorbing
+        return rest[0] if len(rest) == 1 else ast.BoolOp(op=e.op, values=rest)
+    return e
+
+
+def _not_inherited(res, flt):
+    """Is `res` the test `not <entry of the key>.from_parent`?"""
+    if not (isinstance(res, ast.UnaryOp) and isinstance(res.op, ast.Not)):
+        if isinstance(res, ast.Compare) and len(res.ops) == 1 and isinstance(res.ops[0], (ast.Is, ast.Eq)) and isinstance(res.comparators[0], ast.Constant) \
+                and res.comparators[0].value is False:
+            x = res.left
+        else:
+            return False
+    else:
+        x = res.operand
+    if not (isinstance(x, ast.Attribute) and x.attr == "from_parent"):
+        return False
+    ent = x.value
+    if isinstance(ent, ast.Name):
+        return flt.valvar is not None and ent.id == flt.valvar
+    own = "self." + flt.field
+    if isinstance(ent, ast.Subscript):
+        return A.norm(ent.value) == own and A.norm(ent.slice) == flt.keyvar
+    if isinstance(ent, ast.Call) and A.call_attr(ent) == "get" and len(ent.args) == 1 and not ent.keywords:
+        return A.norm(A.call_recv(ent)) == own and A.norm(ent.args[0]) == flt.keyvar
+    return False
+
+
+def _stored_form_filter(ck, R):
+    """PicklePartition.list_keys(include): every key of the index when include is set, the keys whose entry is
+    not marked from_parent otherwise; sorted."""
+    lk = FA(ck, PM.PICKLE_PARTITION + ".list_keys")
+    INC = _param(ck, lk, 1, "_include_merge_parent")
+    paths, falls = _exit_paths(lk)
+    ok = bool(paths) and not falls
+    seen = set()
+    for path in paths:
+        st = lk.cfg.node(path[0]).ast
+        if isinstance(st, ast.Raise) or st.value is None:
+            ok = False
+            continue
+        for (lits, srcs, srt) in _returned(lk, path):
+            toks = list(srcs)
+            if not (srt and len(toks) == 1 and toks[0][0] == "own"):
+                ok = False
+                continue
+            flt = toks[0][2]
+            inc = _pol(lits, INC)
+            for w in ([inc] if inc is not None else [True, False]):
+                seen.add(w)
+                res = True
+                if flt is not None:
+                    res = _simplify(flt.ifs[0] if len(flt.ifs) == 1 else ast.BoolOp(op=ast.And(), values=list(flt.ifs)), INC, w)
+                if w:
+                    ok = ok and res is True
+                else:
+                    ok = ok and not isinstance(res, bool) and _not_inherited(res, flt)
+    ok = ok and seen == {True, False}
+    ck.ob(R, lk.key(None, "stored-form-filter"), ok, "without parents, the stored form lists only entries not marked from_parent" if ok else
+          "PicklePartition.list_keys(_include_merge_parent=False) does not filter out inherited entries: a re-stored child duplicates parent data as own", lk.where())
 
 
 def check_siblings(ck, R):
@@ -304,13 +871,7 @@ def check_siblings(ck, R):
             continue
         _shape_get(ck, R, cls)
         _shape_list(ck, R, cls)
-    lk = FA(ck, PM.PICKLE_PARTITION + ".list_keys")
-    flt = [n for n in A.walk_body(lk.node) if isinstance(n, ast.ListComp)]
-    ok = len(flt) == 1 and any("from_parent" in A.norm(c) and isinstance(c, ast.UnaryOp) and isinstance(c.op, ast.Not) for c in flt[0].generators[0].ifs)
-    g = lk.enclosing(flt[0], ast.If) if flt else None
-    ok = ok and g is not None and A.norm(g.test) == "_include_merge_parent" and flt[0] in [n for s in g.orelse for n in ast.walk(s)]
-    ck.ob(R, lk.key(None, "stored-form-filter"), ok, "without parents, the stored form lists only entries not marked from_parent" if ok else
-          "PicklePartition.list_keys(_include_merge_parent=False) does not filter out inherited entries: a re-stored child duplicates parent data as own", lk.where())
+    _stored_form_filter(ck, R)
 
 
 def check_index_tables(ck, R):
@@ -319,10 +880,23 @@ def check_index_tables(ck, R):
     se = FA(ck, PM.PICKLE_PARTITION + "._serialize_index")
     de = FA(ck, PM.PICKLE_PARTITION + "._deserialize_index")
     enc = set()
-    for d in [n for n in A.walk_body(se.node) if isinstance(n, ast.Dict)]:
-        for k in d.keys:
-            if A.const_str(k):
-                enc.add(A.const_str(k))
+    enc_values = []
+    for n in A.walk_body(se.node):
+        if isinstance(n, ast.Dict):
+            for k, v in zip(n.keys, n.values):
+                if A.const_str(k):
+                    enc.add(A.const_str(k))
+                    enc_values.append(v)
+        elif isinstance(n, ast.Call) and isinstance(n.func, ast.Name) and n.func.id == "dict" and n.keywords and not n.args:
+            # dict(result_type=..., ...)
+            for k in n.keywords:
+                if k.arg:
+                    enc.add(k.arg)
+                    enc_values.append(k.value)
+        elif isinstance(n, ast.Assign) and len(n.targets) == 1 and isinstance(n.targets[0], ast.Subscript) and A.const_str(n.targets[0].slice):
+            # entry["result_type"] = ...
+            enc.add(A.const_str(n.targets[0].slice))
+            enc_values.append(n.value)
     dec = set()
     # the per-entry variable: any name bound by a loop / comprehension over the decoded mapping
     ev = set()
@@ -334,15 +908,14 @@ def check_index_tables(ck, R):
             dec.add(A.const_str(n.slice))
         if isinstance(n, ast.Call) and A.call_attr(n) == "get" and A.norm(A.call_recv(n)) in ev and n.args and A.const_str(n.args[0]):
             dec.add(A.const_str(n.args[0]))
-    nt = ck.repo.module("storage_base").assigns.get("_ResultTypeAndContentKey")
-    fields = set(A.strings_in(nt.args[1])) if isinstance(nt, ast.Call) and len(nt.args) > 1 else set()
+    fields = set(PM.entry_type_fields(ck))
     ok = enc == dec == fields and bool(enc)
     ck.ob(R, se.key(None, "entry-fields"), ok, "index entries carry %s on both sides" % sorted(enc) if ok else
           "index entry fields differ: written %s, read %s, declared %s" % (sorted(enc), sorted(dec), sorted(fields)), se.where())
     ctor = [c for c in de.calls("_ResultTypeAndContentKey")]
-    okc = len(ctor) == 1 and "ResultType[" in A.norm(A.kwarg(ctor[0], "result_type")) and "decode_versioned_data_source_key" in A.norm(A.kwarg(ctor[0], "content_key"))
-    encn = any(".name" in A.norm(v) for d in [n for n in A.walk_body(se.node) if isinstance(n, ast.Dict)] for v in d.values) and \
-        "encode_versioned_data_source_key" in A.norm(se.node)
+    ef = PM.entry_fields(ctor[0], PM.entry_type_fields(ck)) if len(ctor) == 1 else None
+    okc = ef is not None and "ResultType[" in A.norm(ef["result_type"]) and "decode_versioned_data_source_key" in A.norm(ef["content_key"])
+    encn = any(".name" in A.norm(v) for v in enc_values) and "encode_versioned_data_source_key" in A.norm(se.node)
     ck.ob(R, de.key(None, "entry-codecs"), okc and encn, "type is written by name and read by name; keys use the versioned-key codec both ways" if okc and encn else
           "index entry encoding and decoding do not use matching codecs", de.where())
 
@@ -357,10 +930,14 @@ def check_truthiness(ck, R):
         if f is None:
             continue
         fx = FA(ck, f)
+        # a local that holds the merge parent counts like the attribute itself
+        holders = {t.id for s_ in fx.stmts(ast.Assign) for t in s_.targets if isinstance(t, ast.Name) and A.norm(s_.value) in ("self." + PARENT_ATTR, "obj." + PARENT_ATTR)}
         for n in fx.cfg.nodes:
             if n.kind == "test":
                 for a in A.conj_atoms(n.ast) if not isinstance(n.ast, ast.BoolOp) or isinstance(n.ast.op, ast.And) else A.test_atoms(n.ast):
-                    if A.norm(a) in ("merge_parent", "self._merge_parent", "obj._merge_parent"):
+                    while isinstance(a, ast.UnaryOp) and isinstance(a.op, ast.Not):
+                        a = a.operand
+                    if A.norm(a) in ("merge_parent", "self." + PARENT_ATTR, "obj." + PARENT_ATTR) or (isinstance(a, ast.Name) and a.id in holders):
                         tests.append((fx, a))
     ok = not sized or not tests
     ck.ob(R, "partition::merge-parent-truthiness", ok,
